@@ -33,7 +33,7 @@ ASSUMPTIONS = [
 ]
 REQUIRED_COUNTERS = ['cases', 'invocations_judged', 'records_judged',
                      'diagnoser_calls_judged', 'reinvocations_justified',
-                     'monitored_cases']
+                     'monitored_cases', 'stacked_option_cases']
 EXHAUSTIVE = {'quick': True, 'thorough': True}
 PLAN = {
     'quick': {'workers': 16, 'budget_s': 60, 'sampled_per_worker': 500,
@@ -58,10 +58,12 @@ def setup():
   pm.htf()
 
 
-def make(pos, seq, limit, opt, run_if, meas, diag, mon=False):
+def make(pos, seq, limit, opt, run_if, meas, diag, mon=False, stack=False):
   beh = {'r': list(seq) if len(seq) > 1 else seq[0]}
   if mon:
     beh['mon'] = 1
+  if stack:
+    beh['stack'] = 1
   opts = {}
   cfg = {}
   if limit:
@@ -100,7 +102,7 @@ def make(pos, seq, limit, opt, run_if, meas, diag, mon=False):
     prog = [['G', [], [ok('pre')], [put, ok('td_tail')]], ok('tail')]
   return {'prog': prog, 'cfg': cfg,
           'meta': [pos, list(seq), limit, opt, run_if, meas, diag] + (
-              ['monitored'] if mon else [])}
+              ['monitored'] if mon else []) + (['stacked-options'] if stack else [])}
 
 
 def seqs_core():
@@ -134,6 +136,14 @@ def enumerated(tier):
       for pos in ('first', 'in_subtest', 'in_teardown'):
         for meas, diag in ((None, None), ('fail', 'pass'), ('pass', 'failure')):
           yield make(pos, seq, None, opt, None, meas, diag, mon=True)
+  # the options come from two PhaseOptions layers (limit first, the rest on top)
+  for seq in (['R', 'R', 'R', 'R'], ['R', 'R', 'R', 'C'], ['R', 'C'], ['R', 'R', 'C'],
+              ['T', 'T', 'C'], ['F', 'F', 'C'], ['X']):
+    for limit in (1, 2, 4):
+      for opt in OPTS:
+        for pos in ('first', 'in_subtest'):
+          yield make(pos, seq, limit, opt, None, 'fail' if seq[0] == 'F' else None,
+                     None, stack=True)
   for run_if in RUN_IFS:
     for opt in OPTS:
       for pos in POSITIONS:
@@ -150,7 +160,7 @@ def sampled(tier, rng):
         rng.choice(CODES) for _ in range(rng.randint(1, 4))]
     yield make(rng.choice(POSITIONS), seq, rng.choice(LIMITS), rng.choice(OPTS),
                rng.choice(RUN_IFS + [None, None]), rng.choice(MEAS),
-               rng.choice(DIAGS), mon=rng.random() < .15)
+               rng.choice(DIAGS), mon=rng.random() < .15, stack=rng.random() < .15)
 
 
 def run_case(case):
@@ -161,7 +171,8 @@ def run_case(case):
   viol = []
   c = {'cases': 1, 'invocations_judged': 0, 'records_judged': 0,
        'diagnoser_calls_judged': 0, 'reinvocations_justified': 0,
-       'monitored_cases': len(case['meta']) - 7}
+       'monitored_cases': case['meta'][7:].count('monitored'),
+       'stacked_option_cases': case['meta'][7:].count('stacked-options')}
 
   def bad(mech, **d):
     if len(viol) < 4:
